@@ -245,6 +245,8 @@ func runC07(c *Ctx) {
 	checkFailedReadIsFinal(c, "R23", 8)
 	// R24 (= C04.R10): after a reply write that failed part-way nothing more is written into the torn frame
 	checkWriteFailureLatched(c, "R24")
+	// R25 (= C20.Z16) on the servers' side: the pointer of a failed comma-ok assertion is nil
+	checkCommaOkPointerUsedUnderOk(c, "R25", func(fn *ssa.Function) bool { return !isClientSide(fn) }, 3)
 	checkShortInputIsReported(c, "R22")
 	// R13 (shared with C02.R0): a well-formed request of every type makePacket can build lands in a case of the os
 	// server's dispatcher that answers it; the default arm returns an error, which ends the command worker without a
